@@ -117,7 +117,9 @@ def main():
         'checks': checks,
         'not_applicable': [{'property_id': p, 'reason': PENDING_REASON} for p in ALL if p not in CHECKS],
         'notes': 'Property-based testing / fuzzing only. Exit 0 = held on everything explored, 1 = VIOLATION line(s), 2 = harness error. '
-                 'Fixed defects are listed in known_findings.txt and replayed from corpus/ on every run.',
+                 'Fixed defects are listed in known_findings.txt and replayed from corpus/ on every run. Every check makes a second pass of its '
+                 'quick workload in a fresh interpreter run with -O and in two simulated environments (hashlib.new("ripemd160") refusing as on '
+                 'OpenSSL 3 without the legacy provider; a stand-in for the optional mmh3 extension importable).',
     }
     with open(os.path.join(HERE, 'MANIFEST.json'), 'w') as f:
         json.dump(m, f, indent=1)
